@@ -41,8 +41,14 @@ def mutate(text, rng):
     if k == 3:
         # cyclic units, referenced by a variable and by a connection
         cyc = '<units name="cyA"><unit units="cyB"/></units><units name="cyB"><unit units="cyC" exponent="2"/></units><units name="cyC"><unit units="cyA"/></units>'
-        t = text.replace('<component ', cyc + '<component ', 1)
-        t = re.sub(r'(<variable [^>]*units=")[^"]*(")', r'\1cyA\2', t, count=rng.randint(1, 3))
+        entry = 'cyA'
+        if rng.random() < 0.5:
+            # a cycle that is entered from outside: the starting units are not on it
+            cyc = '<units name="cyT"><unit units="cyS"/></units><units name="cyS"><unit units="%s"/><unit units="second"/></units>' % rng.choice(['cyA', 'cyB', 'cyC']) + cyc
+            entry = 'cyT'
+        pos = rng.choice(['first', 'before-component'])
+        t = re.sub(r'(<model [^>]*>)', lambda m: m.group(1) + cyc, text, count=1) if pos == 'first' else text.replace('<component ', cyc + '<component ', 1)
+        t = re.sub(r'(<variable [^>]*units=")[^"]*(")', r'\1%s\2' % entry, t, count=rng.randint(1, 3))
         return t, 'cyclic units'
     if k == 4:
         t = re.sub(r'<units name="([^"]+)">', lambda m: '<units name="%s"><unit units="%s"/>' % (m.group(1), m.group(1)), text, count=1)
